@@ -1,6 +1,7 @@
 package main
 
 import (
+	"runtime"
 	"context"
 	"fmt"
 	"unsafe"
@@ -61,11 +62,14 @@ func provenanceCheck(col *Collector, h *hist) {
 		n int
 	}
 	var all []seen
+	var keep []*gobinlog.Transaction // the delivered transactions stay referenced: a collected value's memory would be
+	// handed out again and look like an overlap (false alarm in the thorough sweep at seed 4)
 	ok, note, key := true, "", ""
 	nvals := 0
 	func() {
 		defer func() { recover() }()
 		s.VerifParseEvents(context.Background(), ch, func(t *gobinlog.Transaction) error {
+			keep = append(keep, t)
 			for _, e := range t.Events {
 				for _, rs := range [][]*gobinlog.RowData{e.RowValues, e.RowIdentifies} {
 					for _, r := range rs {
@@ -106,6 +110,7 @@ func provenanceCheck(col *Collector, h *hist) {
 			return nil
 		})
 	}()
+	runtime.KeepAlive(keep)
 	col.AddScenario("provenance", h.line(posStr(firstFile, 4)), nvals > 0, ok, key != "provenance-differs-from-model", note, key, fmt.Sprintf("%d values classified", nvals), "")
 }
 
